@@ -255,6 +255,8 @@ def compare_projection(W, rec, judge, ctx, wit, name):
             judge.note(f"bcDirty:{name}")
         if bool(b.modified) != bool(pb["dirty"]):
             judge.note(f"bcModifiedAggregate:{name}")
+        if "per" in pb and {s for s in ("s1", "s2") if W.side(b, s).periodic} != set(pb["per"]):
+            judge.note(f"bcPeriodic:{name}")
 
 
 def step(W, name, args, rec, judge, ctx, wit, before_vars):
@@ -511,11 +513,11 @@ def simulate(cfg, num, depth, seed, timeout=1800):
     return parse_behaviours(res["printed"]), res
 
 
-def edge_behaviours(depth, timeout=1800):
+def edge_behaviours(depth, timeout=1800, cfg_name="FVLifecycle_edges.cfg"):
     """every transition of the bounded FVLifecycle state graph (TLC exhaustive, ACTION_CONSTRAINT
     EmitEdge), each turned into a behaviour: a shortest path to its source state plus the edge"""
     import re as _re
-    cfg = open(tlcrun.SPEC + "/FVLifecycle_edges.cfg").read()
+    cfg = open(tlcrun.SPEC + "/" + cfg_name).read()
     cfg = _re.sub(r"MaxDepth = \d+", f"MaxDepth = {depth}", cfg)
     path = tlcrun.fresh("edges.cfg")
     open(path, "w").write(cfg)
